@@ -158,7 +158,12 @@ def run(cfg, events):
                     ctx.set(p.en, we[j])
             held = [list(ra), list(re), list(wa), list(wd), list(we)]
             if tbi:
-                ctx.set(d.mem.data[tbi - 1], tbv)
+                v = tbv
+                if cfg["kind"] in ("u", "s") and cfg["w"] and rrng.random() < 0.35:
+                    # the same row value given out of range (negative for an unsigned row, too wide, ...): a write
+                    # wraps it to the row's shape like any assignment, so the recorded event keeps the canonical value
+                    v = tbv + rrng.choice([-1, 1, 2]) * (1 << cfg["w"])
+                ctx.set(d.mem.data[tbi - 1], v)
             if D:
                 ctx.set(clocks, D)
             # sampled right after the active edges, before anything else happens (the inactive edge that follows
